@@ -83,6 +83,8 @@ def get_fn(fn):
 
 class Scenario:
     def __init__(self, base, fmt, rel, initial, fn, workers, reverse):
+        self.faults = fmt.endswith("+faults")
+        fmt = fmt.split("+")[0]
         self.fmt, self.rel, self.initial, self.fn, self.workers, self.reverse = fmt, rel, initial, fn, workers, reverse
         self.root = tempfile.mkdtemp(prefix="kdv_c20_", dir=base)
         self.groot = os.path.join(self.root, "global", "" if rel else "ds")
@@ -99,7 +101,7 @@ class Scenario:
         self.modules = [self.module, cu]
 
     def desc(self):
-        return dict(fmt=self.fmt, rel=self.rel, initial=self.initial, fn=self.fn, workers=self.workers, reverse=self.reverse)
+        return dict(fmt=self.fmt + ("+faults" if self.faults else ""), rel=self.rel, initial=self.initial, fn=self.fn, workers=self.workers, reverse=self.reverse)
 
     def kwargs(self):
         return dict(global_path=self.groot, local_path=self.lroot, relative_path=self.rel, num_workers=self.workers)
@@ -155,6 +157,34 @@ class Scenario:
     def cleanup(self):
         shutil.rmtree(self.root, ignore_errors=True)
 
+    # ---- environment faults: an unreadable zip on the global storage (repaired before the next attempt)
+    def zip_paths(self):
+        src = os.path.join(self.groot, self.rel) if self.rel else self.groot
+        if self.fmt == "zip":
+            return [src + ".zip"]
+        if self.fmt in ("zips", "zips3"):
+            return [os.path.join(src, z) for z in sorted(os.listdir(src)) if z.endswith(".zip")]
+        return []
+
+    def corrupt(self, path, kind):
+        with open(path, "rb") as f:
+            self._saved = (path, f.read())
+        data = self._saved[1]
+        if kind == "truncated":
+            bad = data[:len(data) // 2]
+        else:  # one payload byte of the last member flipped: the error surfaces while extracting, after earlier members
+            with zipfile.ZipFile(path) as z:
+                info = z.infolist()[-1]
+            off = info.header_offset + 30 + len(info.filename.encode()) + max(0, info.compress_size // 2)
+            bad = data[:off] + bytes([data[off] ^ 0xFF]) + data[off + 1:]
+        with open(path, "wb") as f:
+            f.write(bad)
+
+    def repair(self):
+        path, data = self._saved
+        with open(path, "wb") as f:
+            f.write(data)
+
 
 def norm_op(op):
     if not op:
@@ -208,7 +238,9 @@ def final_checks(sc, state_tree, history, p):
         return None
     t1 = sc.local_tree()
     res = dict(r1["result"])
-    ops1 = r1["ops"]
+    # the copy's own file-system operations: below the local / global roots (a worker pool's private scratch folders under
+    # the system temp directory are crash points, but not part of what the result object reports)
+    ops1 = [o for o in r1["ops"] if len(o) > 1 and str(o[1]).split(os.sep)[0] in ("local", "global")]
     missing = [k for k in ("was_copied", "was_deleted") if k not in res]
     if missing:
         bad("result_untruthful", f"result object lacks {missing}: {res}")
@@ -247,10 +279,48 @@ def final_checks(sc, state_tree, history, p):
     if r2["status"] != "returned":
         bad("second_call_failed", str(r2.get("error")))
     else:
-        if r2["ops"] or r2["result"]["was_copied"] or r2["result"]["was_deleted"] or sc.local_tree() != t1:
+        if [o for o in r2["ops"] if len(o) > 1 and str(o[1]).split(os.sep)[0] in ("local", "global")] or r2["result"]["was_copied"] or r2["result"]["was_deleted"] or sc.local_tree() != t1:
             bad("second_call_not_idempotent", f"second call: ops {r2['ops'][:6]} result {r2['result']}")
     p.observe((tuple(sorted(sc.desc().items())), crashfs.tree_digest(state_tree)))
-    return ops1
+    return r1["ops"]
+
+
+def fault_attempt(sc, state, zip_index, kind):
+    """One attempt while zip number zip_index is unreadable; the zip is repaired afterwards. -> (report, tree after)"""
+    sc.restore(state)
+    path = sc.zip_paths()[zip_index]
+    sc.corrupt(path, kind)
+    try:
+        r = sc.run(None)
+    finally:
+        sc.repair()
+    return r, sc.local_tree(), os.path.basename(path)
+
+
+def explore_faults(sc, p):
+    """An attempt is interrupted by an exception inside an unzip job instead of a kill: the call must not return normally
+    with an incomplete copy, and the next attempt (zip readable again) must delete the incomplete copy and redo it."""
+    init = sc.initial_tree()
+    for zi in range(len(sc.zip_paths())):
+        for kind in ("truncated", "member_damaged"):
+            r, t, name = fault_attempt(sc, init, zi, kind)
+            p.evaluations += 1
+            p.count("fault_attempts")
+            hist_key = f"fault:{zi}:{kind}"
+            case = dict(scenario=sc.desc(), history=[hist_key])
+            if r["status"] == "harness_error":
+                raise RuntimeError(f"harness: {r}")
+            if r["status"] == "returned":
+                if not sc.is_complete(t):
+                    data, s_, e_, _ = sc.data_of(t)
+                    p.violation(f"C20:copy_incomplete_after_normal_return|fn={sc.fn}|window=unreadable_zip", case,
+                                f"{sc.desc()} with {name} {kind}: the call returned {r['result']} although the copy has "
+                                f"start={s_} end={e_} and misses {sorted(set(sc.expected) - set(data))}")
+                    continue
+            else:
+                p.count("fault_attempt_raised")
+            final_checks(sc, t, [dict(crash_at=hist_key, report=dict(ops=r["ops"], crash_before=["fault", name]))], p)
+            p.state((tuple(sorted(sc.desc().items())), "fault", zi, kind, crashfs.tree_digest(t)))
 
 
 def explore_scenario(sc, depth, p, cap_states):
@@ -314,7 +384,15 @@ def scenarios(tier, seed):
                 sel.append(s)
         out = sel
         out.append(("zips3", None, "parent", "folder", 2, False))
+        for fn in ("folder", "image_folder"):
+            out += [("zip+faults", None, "parent", fn, 0, False), ("zips+faults", None, "absent", fn, 0, False),
+                    ("zips3+faults", "nest/ds", "parent", fn, 1, True), ("zips3+faults", None, "parent", fn, 2, False)]
     else:
+        for fn in ("folder", "image_folder"):
+            for fmt in ("zip", "zips", "zips3"):
+                for workers in (0, 1, 2, 3):
+                    for rel, initial, reverse in ((None, "parent", False), ("nest/ds", "absent", True)):
+                        out.append((fmt + "+faults", rel, initial, fn, workers, reverse))
         for fn in ("folder", "image_folder"):
             for workers in (2, 3):
                 out.append(("zips3", None, "parent", fn, workers, False))
@@ -324,7 +402,7 @@ def scenarios(tier, seed):
 
 def task(args):
     specs, depth, cap_states = args
-    if specs[0][4] >= 2:
+    if specs[0][4] >= 2 and not specs[0][0].endswith("+faults"):
         # joblib workers are separate interpreters: only the parent's own operations are crash points, and a call costs
         # seconds - explore the uninterrupted behaviour (quick) and crash histories of depth 1 (thorough)
         depth = 0 if depth <= 2 else 1
@@ -334,7 +412,10 @@ def task(args):
         for spec in specs:
             sc = Scenario(base, *spec)
             try:
-                explore_scenario(sc, depth, p, cap_states)
+                if spec[0].endswith("+faults"):
+                    explore_faults(sc, p)
+                else:
+                    explore_scenario(sc, depth, p, cap_states)
             finally:
                 sc.cleanup()
         p.sample(dict(scenario=dict(zip(("fmt", "rel", "initial", "fn", "workers", "reverse"), specs[0])), depth=depth))
@@ -389,6 +470,14 @@ def replay(case):
         state = sc.initial_tree()
         hist = []
         for k in case["history"]:
+            if isinstance(k, str) and k.startswith("fault:"):
+                _, zi, kind = k.split(":")
+                r, state, name = fault_attempt(sc, state, int(zi), kind)
+                if r["status"] == "returned" and not sc.is_complete(state):
+                    sc.cleanup()
+                    return f"the call returned normally ({r['result']}) while {name} was unreadable ({kind}); the copy is incomplete"
+                hist.append(dict(crash_at=k, report=dict(ops=r["ops"], crash_before=["fault", name])))
+                continue
             sc.restore(state)
             r = sc.run(k)
             if r["status"] != "crashed":
